@@ -62,9 +62,13 @@ var (
 
 // buildMsgObject makes the library object for m with one of the histories above.
 func buildMsgObject(m *abs.Msg) (*message.IKEMessage, error) {
+	shared0 := atomic.LoadInt64(&bridge.SharedTransformObjects)
 	lm, err := bridge.BuildMsg(m)
 	if err != nil {
 		return nil, err
+	}
+	if atomic.LoadInt64(&bridge.SharedTransformObjects) > shared0 {
+		core.GlobalCount("msg_objects_with_a_transform_object_referenced_more_than_once")
 	}
 	prov := int(abs.Hash64(fmt.Sprintf("%d/%d/%d/%d", m.MsgID, m.ISPI, len(m.Payloads), m.Exch)) % nProv)
 	set := func(h *message.IKEHeader) {
